@@ -239,7 +239,7 @@ def expected_status(b, dedicated, timeout):
         return "Different"
     if b in ("player_raises", "extractor_raises", "comparator_raises"):
         return "EqualizerFailure"
-    if b == "equal":
+    if b == "equal" or b.startswith("spawns"):      # (real-process scripts only: the operation computes in a helper process / thread)
         return "Equal"
     if not dedicated:
         return None if b in ("exit0", "exit1", "hang", "hang_deaf") else "Equal"
